@@ -107,7 +107,7 @@ def _oq(vals, nodata, isfloat=True):
     out = []
     for v in vals:
         v = float(v)
-        if v == nodata:
+        if v == nodata or v != v:      # NaN (median of an all-nodata segment) = no value
             out += [0, 0, 1]
         else:
             f = Fraction(v)
